@@ -143,11 +143,21 @@ def countCommits : List St → Nat
 
 def Run.commitPoints (r : Run) : Nat := countCommits r.crashStates
 
+/-- no successful `write` is executed before the first failing call (or before the end) -/
+def noWriteBeforeFail : List Ev → Bool
+  | [] => true
+  | .fail :: _ => true
+  | .write _ _ :: _ => false
+  | _ :: es => noWriteBeforeFail es
+
 /-- One `exec_mut` / `transaction_mut` call of a history. -/
 structure TxnStep where
   closure : List Ev
   undo : List Ev
   closureOk : Bool
+
+/-- Well-formedness of a step: closure and rollback are built from bracketed operations. -/
+def TxnStep.WF (t : TxnStep) : Prop := wellNested 0 t.closure = true ∧ wellNested 0 t.undo = true
 
 /-- `(image before the step, image after the step, crash state)` for every crash point of every
 step of a history run with the fixed `transaction_mut`. -/
